@@ -169,8 +169,12 @@ func loadProgram(spec *Spec, ov map[string][]byte) (*ssa.Program, *ssa.Package, 
 func findEntry(prog *ssa.Program, primary *ssa.Package, name string) (*ssa.Function, string) {
 	if i := strings.IndexByte(name, ':'); i >= 0 {
 		dir, fn := name[:i], name[i+1:]
+		want := modPath + "/" + dir
+		if dir == "." || dir == "" {
+			want = modPath
+		}
 		for _, p := range prog.AllPackages() {
-			if p.Pkg.Path() == modPath+"/"+dir {
+			if p.Pkg.Path() == want {
 				return p.Func(fn), dir
 			}
 		}
@@ -425,6 +429,7 @@ func cmdRun(args []string) int {
 			}
 		}
 	}
+	profileDump()
 	writeEvidence(spec, *tier, seed, start, reports, funcs, assumes, problems, nviol, knownHit, *noEvidence)
 	if exit == 0 && len(problems) > 0 {
 		for _, p := range problems {
@@ -484,7 +489,7 @@ func firstLine(s string) string {
 var defaultAllowInit = []string{"io", "errors", "strconv", "bufio", "bytes", "strings", "encoding/binary", "encoding/hex", "sort",
 	"github.com/pion/sdp/v3", "github.com/pion/rtp", "github.com/pion/rtp/codecs", "github.com/pion/rtcp", "github.com/pion/logging", "github.com/pion/randutil"}
 
-var defaultDeny = []string{"reflect", "internal/reflectlite", "os", "net", "syscall", "runtime", "time", "fmt", "crypto/rand", "math/rand", "encoding/json", "regexp", "context"}
+var defaultDeny = []string{"reflect", "internal/reflectlite", "os", "net", "syscall", "runtime", "fmt", "crypto/rand", "math/rand", "encoding/json", "regexp", "context"}
 
 func reachLabels(hdir, entry string) []string {
 	// labels are declared in the harness as verif.Reach("label") ; collect those inside the file textually
